@@ -93,6 +93,23 @@ pub trait Shapes {
     /// two converted arguments of the same shape and type: each must arrive in its own position
     fn s_two_opts(&mut self, lo: Option<u64>, hi: Option<u64>) -> u64;
     fn s_two_into(&mut self, a: impl Into<u64>, b: impl Into<u64>) -> u64;
+    /// no return value
+    fn s_unit(&mut self, v: u64);
+    fn s_opt_mut(&mut self, v: Option<&mut u64>) -> bool;
+    fn s_ret_mut(&mut self) -> &mut u64;
+    fn s_ret_opt_mut(&mut self, some: bool) -> Option<&mut u64>;
+    /// options that need no tag (null-pointer-optimised payloads) and nested ones
+    fn s_nz(&self, v: Option<core::num::NonZeroU32>) -> Option<core::num::NonZeroU32>;
+    fn s_nested(&self, v: Option<Option<u64>>) -> Option<Option<u64>>;
+    fn s_raw(&self, p: *const u64, q: *mut u64) -> *const u64;
+    /// cglue's own C types as arguments and returns
+    fn s_ctup(&self, t: CTup2<u64, i32>) -> CTup3<u8, u64, i32>;
+    fn s_copt(&self, t: COption<u64>) -> CResult<u64, i32>;
+    /// (borrowed C string in; an owned `ReprCString` is not returned: it carries no release
+    /// function, so across modules with different allocators it cannot be released by its creator —
+    /// a design limit outside C05's list of value kinds, see DESIGN.md §9.3)
+    fn s_cstr(&self, s: ReprCStr<'_>) -> u64;
+    fn s_slices(&self, v: &[CSliceRef<u8>]) -> usize;
     /// slices of a zero-sized element type: only address and length cross
     fn s_unit_slice(&mut self, v: &[Tick]) -> usize;
     fn s_ret_unit_slice(&self) -> &[Tick];
@@ -568,6 +585,65 @@ macro_rules! implementor {
                 self.core.enter("s_mut_ref", *out, &[(out as *mut u64 as usize, 1)]);
                 *out = self.core.mix(*out);
                 *out % 2 == 0
+            }
+            fn s_unit(&mut self, v: u64) {
+                self.core.enter("s_unit", v, &[]);
+                self.core.mix(v ^ 0x33);
+            }
+            fn s_opt_mut(&mut self, v: Option<&mut u64>) -> bool {
+                match v {
+                    Some(x) => {
+                        self.core.enter("s_opt_mut", *x, &[(x as *mut u64 as usize, 1)]);
+                        *x = self.core.mix(*x);
+                        true
+                    }
+                    None => {
+                        self.core.enter("s_opt_mut", 0x0bad, &[(0, 0)]);
+                        false
+                    }
+                }
+            }
+            fn s_ret_mut(&mut self) -> &mut u64 {
+                self.core.enter("s_ret_mut", 0, &[(&self.core.cell as *const u64 as usize, 1)]);
+                &mut self.core.cell
+            }
+            fn s_ret_opt_mut(&mut self, some: bool) -> Option<&mut u64> {
+                self.core.enter("s_ret_opt_mut", some as u64, &[if some { (&self.core.cell as *const u64 as usize, 1) } else { (0, 0) }]);
+                if some { Some(&mut self.core.cell) } else { None }
+            }
+            fn s_nz(&self, v: Option<core::num::NonZeroU32>) -> Option<core::num::NonZeroU32> {
+                self.core.enter("s_nz", v.map(|x| x.get() as u64).unwrap_or(0), &[]);
+                v.and_then(|x| core::num::NonZeroU32::new(x.get().wrapping_mul(3) & !1))
+            }
+            fn s_nested(&self, v: Option<Option<u64>>) -> Option<Option<u64>> {
+                let d = match v { None => 1, Some(None) => 2, Some(Some(x)) => x.wrapping_add(3) };
+                self.core.enter("s_nested", d, &[]);
+                match v { None => Some(None), Some(None) => Some(Some(self.core.get())), Some(Some(x)) => if x % 2 == 0 { None } else { Some(Some(x ^ 0xFF)) } }
+            }
+            fn s_raw(&self, p: *const u64, q: *mut u64) -> *const u64 {
+                self.core.enter("s_raw", 0, &[(p as usize, 1), (q as usize, 1)]);
+                unsafe { *q = (*p).wrapping_add(self.core.get()) };
+                q as *const u64
+            }
+            fn s_ctup(&self, t: CTup2<u64, i32>) -> CTup3<u8, u64, i32> {
+                self.core.enter("s_ctup", d2(t.0, t.1 as u32 as u64), &[]);
+                CTup3((t.0 >> 3) as u8, t.0 ^ self.core.get(), t.1.wrapping_neg())
+            }
+            fn s_copt(&self, t: COption<u64>) -> CResult<u64, i32> {
+                let o: Option<u64> = t.into();
+                self.core.enter("s_copt", o.map(|x| x.wrapping_add(1)).unwrap_or(0), &[]);
+                match o { Some(x) if x % 3 != 0 => Ok(x ^ 0x1111).into(), Some(x) => Err(x as i32).into(), None => Err(-7).into() }
+            }
+            fn s_cstr(&self, s: ReprCStr<'_>) -> u64 {
+                let t: &str = s.as_ref();
+                self.core.enter("s_cstr", fnv(t.as_bytes()), &[]);
+                fnv(t.as_bytes()) ^ self.core.get()
+            }
+            fn s_slices(&self, v: &[CSliceRef<u8>]) -> usize {
+                let mut d = 0u64;
+                for s in v { d = d2(d, fnv(s.as_slice())); }
+                self.core.enter("s_slices", d, &[(v.as_ptr() as usize, v.len())]);
+                v.iter().map(|s| s.len()).sum()
             }
             fn s_two_opts(&mut self, lo: Option<u64>, hi: Option<u64>) -> u64 {
                 let d = d2(lo.map(|x| x.wrapping_add(1)).unwrap_or(0), hi.map(|x| x.wrapping_mul(3).wrapping_add(7)).unwrap_or(5));
